@@ -26,6 +26,26 @@ Section AssocLemmas.
       + rewrite IH. destruct (k0 =? k') eqn:E1; [|reflexivity].
         apply N.eqb_eq in E1; subst k0. rewrite N.eqb_sym, E0. reflexivity.
   Qed.
+  Lemma aget_adel_below (m : list (N * V)) lo k :
+    aget (adel_below m lo) k = if k <? lo then None else aget m k.
+  Proof.
+    unfold adel_below. induction m as [|[k0 v0] m IH]; cbn.
+    - destruct (k <? lo); reflexivity.
+    - destruct (k0 <? lo) eqn:E0; cbn.
+      + rewrite IH. destruct (k <? lo) eqn:E1; [reflexivity|].
+        destruct (k0 =? k) eqn:E2; [|reflexivity].
+        apply N.eqb_eq in E2; subst k0. congruence.
+      + rewrite IH. destruct (k0 =? k) eqn:E2; [|reflexivity].
+        apply N.eqb_eq in E2; subst k0. rewrite E0. reflexivity.
+  Qed.
+  Lemma keys_below_in (m : list (N * V)) lo k v :
+    aget m k = Some v -> k <? lo = true -> In k (keys_below m lo).
+  Proof.
+    unfold keys_below. induction m as [|[k0 v0] m IH]; cbn; [discriminate|].
+    destruct (k0 =? k) eqn:E.
+    - apply N.eqb_eq in E; subst k0. intros _ Hlt. rewrite Hlt. left. reflexivity.
+    - intros Hg Hlt. destruct (k0 <? lo); [right|]; apply IH; assumption.
+  Qed.
 End AssocLemmas.
 
 Lemma memb_N_true v l : memb N.eqb v l = true <-> In v l.
@@ -49,7 +69,7 @@ Section Sys.
   Definition ep (r : run) : epoch := epoch_of spe (d_slot (r_duty r)).
 
   Ltac simpl_state :=
-    cbn [g_att g_thr g_trace g_purged g_panic set_thr set_att emit purge panic with_pc
+    cbn [g_att g_thr g_trace g_purged g_panic set_thr set_att emit purge_below panic with_pc
          t_pc t_claimed t_data t_args] in *.
 
   Definition signed_pc (p : pc) : Prop :=
@@ -77,7 +97,7 @@ Section Sys.
       skind st st' i
   | SK_purge r :
       nth_error rs i = Some r -> t_pc (g_thr st i) = PHousekeep -> t_pc (g_thr st' i) = PDone ->
-      g_att st' = adel (g_att st) (ep r - 2) -> g_purged st' = (ep r - 2) :: g_purged st ->
+      g_att st' = adel_below (g_att st) (ep r - 1) -> g_purged st' = keys_below (g_att st) (ep r - 1) ++ g_purged st ->
       g_trace st' = g_trace st ->
       t_claimed (g_thr st' i) = t_claimed (g_thr st i) ->
       skind st st' i
@@ -280,9 +300,10 @@ Section Sys.
       constructor; intros.
       + rewrite Hc. eauto.
       + rewrite Hc in *. eauto.
-      + rewrite Hc in *. rewrite Ea, Ep. destruct (Hmk _ _ _ H H0) as [Hpu|[m [Hm Hv]]]; [left; right; exact Hpu|].
-        rewrite aget_adel. destruct (ep r - 2 =? ep r0) eqn:E.
-        * apply N.eqb_eq in E. left. left. exact E.
+      + rewrite Hc in *. rewrite Ea, Ep.
+        destruct (Hmk _ _ _ H H0) as [Hpu|[m [Hm Hv]]]; [left; apply in_or_app; right; exact Hpu|].
+        rewrite aget_adel_below. destruct (ep r0 <? ep r - 1) eqn:E.
+        * left. apply in_or_app. left. exact (keys_below_in _ _ _ _ Hm E).
         * right. exists m. auto.
       + rewrite Et in H. destruct (Hsg q H) as [r0 [Hr0 [Hs [Hi [Hn Hp]]]]].
         exists r0. rewrite Hc. repeat split; auto.
